@@ -354,7 +354,13 @@ package stick
 // the with-hash is applied last (its entries win over call-site variables of the same name): the call-site variables
 // are copied while the context is still empty
 //@   at "s.scope.All()" first: forall k :: !mdom("map[string]Value", ctx, k)
+// completeness: without 'only' every variable visible at the call site is in the context, and every entry of the
+// with-hash is in it with the with-hash's value
+//@   asserts all: err == nil && !node.Only ==> (forall i, k :: 0 <= i && i < len(s.scope.scopes) && mdom("map[string]Value", s.scope.scopes[i], k) ==> mdom("map[string]Value", ctx, k))
+//@   asserts withall: err == nil && istype(with, "map[string]Value") ==> (forall k :: mdom("map[string]Value", unbox(with, "map[string]Value"), k) ==> mdom("map[string]Value", ctx, k) && mval("map[string]Value", ctx, k) == mval("map[string]Value", unbox(with, "map[string]Value"), k))
 //@   asserts only: err == nil && node.Only ==> (forall k trig :: mdom("map[string]Value", ctx, k) ==> istype(with, "map[string]Value") && mdom("map[string]Value", unbox(with, "map[string]Value"), k))
+//@   loop 1 invariant all: !node.Only ==> (forall i, k :: 0 <= i && i < len(s.scope.scopes) && mdom("map[string]Value", s.scope.scopes[i], k) ==> mdom("map[string]Value", ctx, k))
+//@   loop 1 invariant withall: (forall k :: visited(k) ==> mdom("map[string]Value", ctx, k) && mval("map[string]Value", ctx, k) == mval("map[string]Value", unbox(with, "map[string]Value"), k)) && (forall k :: rangedom0(k) == mdom("map[string]Value", unbox(with, "map[string]Value"), k)) && istype(with, "map[string]Value")
 //@   loop 1 invariant only: ctx != nil && fresh(ctx) && (node.Only ==> (forall k trig :: mdom("map[string]Value", ctx, k) ==> istype(with, "map[string]Value") && mdom("map[string]Value", unbox(with, "map[string]Value"), k)))
 //@   requires xinv(s)
 //@   ensures inv: xinv(s)
@@ -675,8 +681,11 @@ package stick
 //@   ensures scope: len(result.scope.scopes) == 1 && result.scope.scopes[0] == ctx && len(result.blocks) == 0 && fresh(result.scope)
 //@ func stick.(*scopeStack).All
 //@   ensures result != nil && fresh(result)
-//@   loop 1 invariant res != nil
-//@   loop 2 invariant res != nil
+// C10: every variable of every scope is in the flattened map (a range over a map visits every key: visited())
+//@   assume closed: forall i :: 0 <= i && i < len(s.scopes) ==> allocated(s.scopes[i])
+//@   ensures complete: forall i, k :: 0 <= i && i < len(s.scopes) && mdom("map[string]Value", s.scopes[i], k) ==> mdom("map[string]Value", result, k)
+//@   loop 1 invariant res != nil && fresh(res) && rangeindex >= -1 && rangeindex < len(s.scopes) && (forall i, k :: 0 <= i && i <= rangeindex && mdom("map[string]Value", s.scopes[i], k) ==> mdom("map[string]Value", res, k))
+//@   loop 2 invariant res != nil && fresh(res) && rangeindex >= -1 && rangeindex + 1 < len(s.scopes) && scope == s.scopes[rangeindex + 1] && (forall i, k :: 0 <= i && i <= rangeindex && mdom("map[string]Value", s.scopes[i], k) ==> mdom("map[string]Value", res, k)) && (forall k :: visited(k) ==> mdom("map[string]Value", res, k)) && (forall k :: rangedom0(k) == mdom("map[string]Value", scope, k))
 //@ func stick.(*state).self
 //@ func stick.execute
 // C18/C10: the root scope of the execution is the caller's own context map, or a map made for this call
